@@ -374,6 +374,12 @@ class Audit:
             a = ops[1] if len(ops) > 1 else None
             if a is not None and a[0] == 'agg' and a[2] == 'std::ops::RangeFull':
                 return 'full-range index'
+        if kind == 'alloc':
+            a = ops[-1] if ops else None
+            if a is not None and const_of(a) and a[0] in ('const', 'cast'):
+                return 'constant allocation size'
+            if a is not None and a[0] == 'call' and a[4].get('name') == 'len':
+                return 'allocation sized by an existing collection'
         if kind == 'chunks' or kind == 'step_by':
             c = const_of(ops[1]) if len(ops) > 1 else None
             if c and c[0]:
